@@ -1,5 +1,5 @@
 (* Codec/Props_codec.v — property theorems of the codec area (statement + `exact lemma` only). *)
-From FlacCodec Require Import Parser_proofs Wf Spec Roundtrip_sub Roundtrip_hdr Roundtrip_frame Agree_frame Totality Progress Stream EncChoice Damage Prefix Interrupted Inverse Inverse_frame StreamRd StreamRd_proofs Lengths ParseWf Admissible DecLengths MustReject.
+From FlacCodec Require Import Parser_proofs Wf Spec Roundtrip_sub Roundtrip_hdr Roundtrip_frame Agree_frame Totality Progress Stream EncChoice Damage Prefix Interrupted Inverse Inverse_frame StreamRd StreamRd_proofs Lengths ParseWf Admissible DecLengths MustReject Enc Enc_proofs.
 From FlacBase Require Import Crc.
 Open Scope N_scope.
 
@@ -194,6 +194,66 @@ Theorem C14_interrupted_stream : forall si fs allb g gb m fuel cur acc,
   let '(out, e) := dec_frames fuel si cur (allb ++ firstn m gb) acc in
   out = rev acc ++ map (fun f => interleave_frame (sem_frame f)) fs /\ is_end_panic e = false.
 Proof. exact interrupted_stream. Qed.
+
+(* ---- the encoder as written (Enc.v: integer path of encode.rs, LPC parameters from any oracle) ----
+   C02 for the encoder: every frame tree it builds from a block in range is well-formed and RFC-valid,
+   stands for exactly the block, and carries the requested number and block size *)
+Theorem C02_encoder_frame_valid : forall o L si rate bps number chans f,
+  enc_frame o L rate bps number chans = Some f ->
+  block_ok si bps chans -> si_rate si = rate -> number <= MAX_FRAME_NUMBER ->
+  wf_frame (Some si) f = true /\ spec_frame f = true /\ sem_frame f = chans /\ h_number (f_hdr f) = number /\
+  h_bs (f_hdr f) = block_len chans.
+Proof. exact enc_frame_ok. Qed.
+(* C01 for the encoder, one frame: the decoder model (and the strict reference decoder) return the block
+   from the encoder's bytes, for every option set, every LPC oracle and whatever bytes follow *)
+Theorem C01_encoder_frame_lossless : forall o L si rate bps number chans bytes rest chk,
+  enc_frame_bytes o L rate bps number chans = Some bytes ->
+  block_ok si bps chans -> si_rate si = rate -> number <= MAX_FRAME_NUMBER ->
+  (forall h, h_bs h = block_len chans -> chk h = Ok tt) ->
+  exists h, dec_frame (Some si) chk (bytes ++ rest) = Ok (h, chans, rest) /\ h_number h = number /\
+            h_bs h = block_len chans /\
+            spec_decode (Some si) (bytes ++ rest) = Ok (chans, rest).
+Proof. exact enc_frame_roundtrip. Qed.
+(* ... and encoding a block in range never fails *)
+Theorem C01_encoder_never_fails : forall o L si rate bps number chans rc,
+  block_ok si bps chans -> code_of_rate rate = Some rc -> number <= MAX_FRAME_NUMBER ->
+  exists bytes, enc_frame_bytes o L rate bps number chans = Some bytes.
+Proof. exact enc_frame_bytes_total. Qed.
+(* C01 for the encoder, whole streams: the frames of consecutive blocks (only the last may be shorter
+   than 15 samples when the total is known) decode to the blocks, in order, and the stream ends cleanly *)
+Theorem C01_encoder_stream_lossless : forall o L si rate bps blocks k bytes fuel cur acc,
+  enc_blocks o L rate bps k blocks = Some bytes ->
+  Forall (block_ok si bps) blocks -> si_rate si = rate ->
+  k + N.of_nat (length blocks) <= MAX_FRAME_NUMBER + 1 ->
+  short_only_last si blocks ->
+  (si_total si = 0 \/ cur + blocks_samples blocks = si_total si) ->
+  (length bytes < fuel)%nat ->
+  dec_frames fuel si cur bytes acc = (rev acc ++ map interleave_frame blocks, EndEof).
+Proof. exact enc_stream_roundtrip. Qed.
+(* C19 for the encoder as written: no side condition on the wasted bits is left *)
+Theorem C19_encoder_subframe_bound : forall o L bps xs,
+  xs <> [] -> forallb (fits bps) xs = true -> 1 <= bps ->
+  sf_bits bps (enc_sub o L bps xs) <= 8 + N.of_nat (length xs) * bps.
+Proof. exact enc_sub_bits. Qed.
+
+(* non-vacuity: a 16-bit stereo block of 6 samples satisfies block_ok and the model encoder turns it into
+   a side/right frame with FIXED predictors, which decodes back *)
+Definition ex_si : streaminfo := {| si_min_bs := 16; si_max_bs := 16; si_min_fs := 0; si_max_fs := 0; si_rate := 44100;
+  si_channels := 2; si_bps := 16; si_total := 0; si_md5 := [] |}.
+Definition ex_block : list (list Z) := [[10; 12; 15; 19; 24; 30]%Z; [9; 12; 14; 19; 23; 30]%Z].
+Definition ex_opts : eopts := {| eo_max_po := 5; eo_mid_side := true; eo_exhaustive := true; eo_rice2 := false |}.
+Example ex_block_ok : block_ok ex_si 16 ex_block.
+Proof.
+  unfold block_ok, ex_block, ex_si. cbn [length si_bps si_channels si_max_bs]. repeat split; try lia.
+  exists 6. repeat split; try lia. repeat constructor.
+Qed.
+Example ex_encoder_roundtrip :
+  match enc_frame_bytes ex_opts None 44100 16 0 ex_block with
+  | Some b => dec_frame (Some ex_si) (fun _ => Ok tt) (b ++ [7]) = Ok (
+      {| h_variable := false; h_bs_code := 6; h_bs := 6; h_rate_code := 9; h_rate := 44100; h_assign := 9;
+         h_bps_code := 4; h_bps := 16; h_number := 0 |}, ex_block, [7])
+  | None => False end.
+Proof. vm_compute. reflexivity. Qed.
 
 (* non-vacuity: a concrete well-formed frame (16-bit mono, 4 samples, FIXED order 1, one Rice partition) *)
 Definition ex_hdr : header := {| h_variable := false; h_bs_code := 6; h_bs := 4; h_rate_code := 9; h_rate := 44100;
